@@ -257,6 +257,8 @@ func (g *genCtx) headerCases(thorough bool) []ccase {
 				m[i] = byte(g.rng.IntN(256))
 			}
 			m[g.rng.IntN(16)] = byte(g.rng.IntN(255))
+			// the length field frames exactly these bytes: bio-rd reads a whole "message" before it looks at the marker
+			binary.BigEndian.PutUint16(m[16:], uint16(len(m)))
 			e := &expect{Family: "header", Class: "marker", Allowed: allow(cut, 0, false, 1, 1)}
 			out = append(out, g.mk("garbage", cut, c, m, e, fmt.Sprintf("%d random bytes", len(m))))
 		}
@@ -699,10 +701,10 @@ func genCases(r *vf.Run) []ccase {
 	out = append(out, g.headerCases(thorough)...)
 	out = append(out, g.openCases()...)
 	out = append(out, g.updateCases(r.N(15, 400))...)
-	out = append(out, g.attrSweep(r.N(2, 16))...)
+	out = append(out, g.attrSweep(r.N(1, 16))...)
 	out = append(out, g.mpEmpty()...)
 	out = append(out, g.oddValid(r.N(100, 3000))...)
-	out = append(out, g.splices(r.N(1500, 150000))...)
+	out = append(out, g.splices(r.N(1000, 150000))...)
 	out = append(out, g.valid(r.N(100, 1000))...)
 	// spread the generators over the batches (a process-fatal stream costs its batch a restart)
 	r.Rand("c21-order").Shuffle(len(out), func(i, j int) { out[i], out[j] = out[j], out[i] })
